@@ -239,9 +239,57 @@ Theorem C20_valid_name_anchor : forall s,
 Proof. intros s. split; [exact (valid_field_name_no_lf s)|exact (valid_field_name_dollar_same s)]. Qed.
 
 (* ---------------------------------------------------------------------------------------------- *)
-(* reading back: a CSV file with a header of valid field names and rows of that many cells -- whatever the
-   cells hold -- yields records with exactly those text values *)
-Theorem C20_csv_read_back : forall d hdr rows, delim_ok d = true ->
+(* reading back.  The reader's dialect: gen_reader_excel_on_field_names is the OBSERVED fact (probed on constructed
+   files on every run) that a file whose first row consists of field names is read in the writer's own dialect; for
+   such a file the delimiter is "," whatever csv.Sniffer (sniff, an oracle) would have guessed *)
+Theorem C20_csv_reader_takes_writer_dialect : forall sniff term hdr rest,
+  term = CRLF \/ term = [LF] -> forallb (cell_ok term) hdr = true ->
+  header_is_field_names (g_reserved gen_cfg) gen_ncfg gen_isdecimal hdr = true ->
+  (List.length (write_row 44 term hdr) <= N.to_nat gen_sniff_sample)%nat ->
+  reader_delimiter gen_reader_excel_on_field_names (g_reserved gen_cfg) gen_ncfg gen_isdecimal gen_sniff_sample sniff
+                   (write_row 44 term hdr ++ rest) = 44.
+Proof.
+  intros sniff term hdr rest Ht Hok Hn Hl.
+  exact (reader_delimiter_excel (g_reserved gen_cfg) gen_ncfg gen_isdecimal gen_sniff_sample sniff term hdr rest Ht Hok Hn Hl).
+Qed.
+(* EVERY output of the CSV writer (default terminator; the selected names are field names, reserved ones included)
+   is read in the writer's dialect and parses back to exactly the header / value rows the writer laid out *)
+Theorem C20_csv_writer_output_reads_back : forall sniff o r rs t,
+  keys_agree gen_cfg o (r :: rs) -> resolve_term gen_cfg (o_term o) = CRLF ->
+  csv_text gen_cfg o (r :: rs) = Some t ->
+  header_is_field_names (g_reserved gen_cfg) gen_ncfg gen_isdecimal (header_of o r) = true ->
+  (List.length (write_row 44 CRLF (header_of o r)) <= N.to_nat gen_sniff_sample)%nat ->
+  reader_delimiter gen_reader_excel_on_field_names (g_reserved gen_cfg) gen_ncfg gen_isdecimal gen_sniff_sample sniff t = 44
+  /\ csv_parse 44 t = layout_runs gen_cfg o (r :: rs).
+Proof.
+  intros sniff o r rs t Hk Ht H Hn Hl. split.
+  - unfold csv_text in H. rewrite (csv_layout gen_cfg o (r :: rs) Hk) in H. injection H as H. subst t. rewrite Ht.
+    exact (reader_delimiter_excel (g_reserved gen_cfg) gen_ncfg gen_isdecimal gen_sniff_sample sniff CRLF (header_of o r) _
+             (or_introl eq_refl) (cells_ok_crlf _) Hn Hl).
+  - exact (csv_parses_back gen_cfg o (r :: rs) t CRLF Hk Ht (or_introl eq_refl) (rows_ok_crlf _) H).
+Qed.
+(* and a CSV file with a header of valid field names and rows of that many cells -- whatever the cells hold -- is read
+   in that dialect and yields records with exactly those text values *)
+Theorem C20_csv_read_back : forall sniff hdr rows,
+  hdr <> [] -> Forall (fun n => valid_body n = true) hdr -> NoDup hdr ->
+  Forall (fun rw : row => List.length rw = List.length hdr) rows ->
+  (List.length (write_row 44 CRLF hdr) <= N.to_nat gen_sniff_sample)%nat ->
+  let t := csv_write 44 CRLF (hdr :: rows) in
+  let d := reader_delimiter gen_reader_excel_on_field_names (g_reserved gen_cfg) gen_ncfg gen_isdecimal gen_sniff_sample sniff t in
+  d = 44
+  /\ csv_read (g_reserved gen_cfg) gen_ncfg gen_isdecimal d None t
+     = Some (hdr, map (fun rw => combine hdr (map Some rw)) rows).
+Proof.
+  intros sniff hdr rows Hne Hv Hn Hl Hs t d.
+  assert (Hd : d = 44).
+  { exact (reader_delimiter_excel (g_reserved gen_cfg) gen_ncfg gen_isdecimal gen_sniff_sample sniff CRLF hdr _
+             (or_introl eq_refl) (cells_ok_crlf _)
+             (valid_header_is_field_names (g_reserved gen_cfg) gen_ncfg gen_isdecimal eq_refl eq_refl eq_refl hdr Hne Hv) Hs). }
+  split; [exact Hd|]. rewrite Hd.
+  exact (csv_read_back (g_reserved gen_cfg) gen_ncfg gen_isdecimal eq_refl eq_refl eq_refl 44 hdr rows eq_refl Hv Hn Hl).
+Qed.
+(* the other delimiters a foreign file may use are covered by the same parser theorem, given the delimiter *)
+Theorem C20_csv_read_back_given_delimiter : forall d hdr rows, delim_ok d = true ->
   Forall (fun n => valid_body n = true) hdr -> NoDup hdr ->
   Forall (fun rw : row => List.length rw = List.length hdr) rows ->
   csv_read (g_reserved gen_cfg) gen_ncfg gen_isdecimal d None (csv_write d CRLF (hdr :: rows))
@@ -256,9 +304,12 @@ Example C20_hyp_satisfiable :
   let r := rec_with_s (tx "a,b") (tx "'a,b'") in
   keys_agree gen_cfg no_opts [r; r] /\ forallb (rec_ok true) [r; r] = true
   /\ names_lf_free (selected no_opts r) /\ delim_ok 44 = true
-  /\ tpl_canon [TLit (tx "x="); TField (tx "s") None []; TField (tx "zz") (Some 114) (tx ">8")] = true.
+  /\ tpl_canon [TLit (tx "x="); TField (tx "s") None []; TField (tx "zz") (Some 114) (tx ">8")] = true
+  /\ header_is_field_names (g_reserved gen_cfg) gen_ncfg gen_isdecimal (header_of no_opts r) = true
+  /\ (List.length (write_row 44 CRLF (header_of no_opts r)) <= N.to_nat gen_sniff_sample)%nat.
 Proof.
   repeat split; try reflexivity.
   - intros a b [<- | [<- | []]] [<- | [<- | []]] _; reflexivity.
   - repeat constructor.
+  - apply PeanoNat.Nat.leb_le. reflexivity.
 Qed.
